@@ -184,7 +184,11 @@ func DecodeClaimsFromCBOR(buf []byte) (IClaims, error) {
 
 	err := dm.Unmarshal(buf, &selector)
 	if err != nil {
-		return nil, err
+		// not a text string: EAT also allows eat_profile to be an OID
+		selector.Profile, err = oidProfileNameFromCBOR(buf, err)
+		if err != nil {
+			return nil, err
+		}
 	}
 
 	// CBOR null / undefined unmarshal into a struct without error (leaving
